@@ -252,7 +252,8 @@ class CachedStore(Entity):
             Number of entries flushed.
         """
         flushed = 0
-        for key in list(self._dirty_keys):
+        # sorted(): set iteration order depends on PYTHONHASHSEED
+        for key in sorted(self._dirty_keys):
             if key in self._cache:
                 yield from self._backing_store.put(key, self._cache[key])
                 self._dirty_keys.discard(key)
@@ -314,7 +315,7 @@ class CachedStore(Entity):
         Returns:
             List of dirty keys.
         """
-        return list(self._dirty_keys)
+        return sorted(self._dirty_keys)
 
     def handle_event(self, event: Event) -> None:
         """CachedStore can handle events for cache operations."""
